@@ -103,7 +103,8 @@ TARGETS = [
     (MASM_X64, "int_neg_checked", True),
     (MASM_X64, "int_not", True),
     (MASM_X64, "bool_not", False),
-    (MASM_X64, "compute_remembered_bit", False),
+    (MASM_X64, "determine_array_size", True),
+    (MASM_X64, "compute_remembered_bit", True),
     (MASM_X64, "array_address", False),
     (CODEGEN, "check_shift_amount", True),
 ]
@@ -237,6 +238,35 @@ def extract_cpu_consts(src):
         if m:
             arrays[m.group(1)] = [x.strip() for x in m.group(3).split(",") if x.strip()]
     return regs, alias, arrays
+
+
+def extract_usize_consts(src):
+    """`pub const NAME: usize = <expr>;` of dora-compiler/src/abi.rs, evaluated: integer literals (decimal, hex, `_`), names
+    of earlier constants, `*`, `+`, `-`, `<<`, parentheses.  Returns {name: (value, source expression)}."""
+    vals = {}
+    for m in re.finditer(r"(?m)^pub const (\w+): usize = ([^;]+);", src):
+        name, expr = m.group(1), m.group(2).strip()
+        toks = re.findall(r"0x[0-9a-fA-F_]+|\d[\d_]*|[A-Za-z_]\w*|<<|[*+\-()]", expr)
+        if "".join(toks) != re.sub(r"\s+", "", expr):
+            continue                       # something outside the little grammar: not modelled
+        py = []
+        ok = True
+        for t in toks:
+            if re.match(r"0x|\d", t):
+                py.append(str(int(t.replace("_", ""), 0)))
+            elif re.match(r"[A-Za-z_]", t):
+                if t not in vals:
+                    ok = False
+                    break
+                py.append(str(vals[t][0]))
+            else:
+                py.append(t)
+        if ok:
+            try:
+                vals[name] = (int(eval(" ".join(py), {"__builtins__": {}})), expr)
+            except Exception:
+                pass
+    return vals
 
 
 def extract_condition_codes(src):
@@ -816,6 +846,8 @@ def main(argv):
     KNOWN_CONSTS.update(regs)
     KNOWN_CONSTS.update(alias)
     KNOWN_CONSTS.update(arrays)
+    abi_consts = extract_usize_consts(src[ABI])
+    report["abi_consts"] = {k: v[0] for k, v in abi_consts.items()}
     ty = ["import DoraModel.X64.Sem",
           "/-! GENERATED by tools/rs2lean_masm.py — do not edit. Enums and constants of the baseline macro assembler. -/",
           "namespace Dora.Masm", "open Dora.X64.Sem", ""]
@@ -846,6 +878,11 @@ def main(argv):
     for n, vs in arrays.items():
         if all(v in regs or v in alias for v in vs):
             ty.append("def %s : List Reg := [%s]" % (n, ", ".join(vs)))
+    ty.append("\n/-! `usize` constants of %s the helpers name (value evaluated from the source expression) -/" % ABI)
+    for n in ("LARGE_OBJECT_SIZE", "REMEMBERED_BIT_SHIFT"):
+        if n in abi_consts:
+            ty.append("/-- `pub const %s: usize = %s;` -/\ndef %s : Int := %d" % (n, abi_consts[n][1], n, abi_consts[n][0]))
+            KNOWN_CONSTS.add(n)
     ty.append("\nend Dora.Masm\n")
 
     # ---- functions
